@@ -16,10 +16,11 @@ import (
 )
 
 // tcase is one request in the line protocol of driverC18: `<op> <a> <b>`.
-//   cmp   a,b = "secs:nanos"
-//   isect a,b = "nil" | "<start>/<end>" with start,end = "-" | "secs:nanos"
-//   conn  likewise
-//   pall - - | pbefore a - | pafter a - | pbetween a b   the period constructors; a,b = "-" (nil) | "secs:nanos"
+//
+//	cmp   a,b = "secs:nanos"
+//	isect a,b = "nil" | "<start>/<end>" with start,end = "-" | "secs:nanos"
+//	conn  likewise
+//	pall - - | pbefore a - | pafter a - | pbetween a b   the period constructors; a,b = "-" (nil) | "secs:nanos"
 type tcase struct {
 	Op string `json:"op"`
 	A  string `json:"a"`
@@ -312,93 +313,98 @@ func randPeriod(r *rand.Rand, pool []string) string {
 	return pick() + "/" + pick()
 }
 
-func runTime(f lib.Flags, res *lib.Result, drv *lib.Driver) {
+// prepTime registers the ties and the monitor of the pkg/time half (in report order) and returns the
+// function that runs them; main runs it on a driver process of its own, concurrently with the segment half
+// (nothing here touches shared state: each tie and monitor is its own object).
+func prepTime(f lib.Flags, res *lib.Result) func(drv *lib.Driver) {
 	mon := res.Monitor("time-semantics",
 		"every tie case is also checked against an independent math/big oracle: sign of the ns difference, interval overlap/touch, symmetry, nil => false")
-
-	// K2: the whole finite domain named by the property
 	k2 := res.Tie("periods-exhaustive", "K2",
 		"all ordered pairs of periods (incl. nil) with endpoints in {unbounded, 0..5}s x nanos {0,1,999999999}, both predicates; distinct = distinct (op,p,q); non-trivial = both periods non-nil")
 	k2.Exhaustive = true
-	dom := periodDomain()
-	var cases []tcase
-	for _, op := range []string{"isect", "conn"} {
-		for _, a := range dom {
-			for _, b := range dom {
-				cases = append(cases, tcase{op, a, b})
-			}
-		}
-	}
-	compare(k2, mon, drv, cases)
-
-	// K2b: all timestamp pairs of the small domain for cmp
 	k2b := res.Tie("compare-exhaustive-small", "K2",
 		"CompareAscending on all pairs of timestamps with secs in {-2..5} x nanos {0,1,999999999}; non-trivial = a != b")
 	k2b.Exhaustive = true
-	var small []string
-	for s := -2; s <= 5; s++ {
-		for _, n := range []int{0, 1, 999999999} {
-			small = append(small, fmt.Sprintf("%d:%d", s, n))
-		}
-	}
-	cases = cases[:0]
-	for _, a := range small {
-		for _, b := range small {
-			cases = append(cases, tcase{"cmp", a, b})
-		}
-	}
-	compare(k2b, mon, drv, cases)
-
-	// K2c: the period constructors over the endpoint domain
 	k2c := res.Tie("constructors-exhaustive-small", "K2",
 		"AllTime, PeriodBefore(a), PeriodOnOrAfter(a), PeriodBetween(a, b) for all a, b in {nil, 0..5}s x nanos {0,1,999999999}; non-trivial = some bound given")
 	k2c.Exhaustive = true
-	cases = cases[:0]
-	cases = append(cases, tcase{"pall", "-", "-"})
-	for _, a := range endpointDomain() {
-		cases = append(cases, tcase{"pbefore", a, "-"}, tcase{"pafter", a, "-"})
-		for _, b := range endpointDomain() {
-			cases = append(cases, tcase{"pbetween", a, b})
-		}
-	}
-	compare(k2c, mon, drv, cases)
-
-	// K1: random 64-bit range timestamps and periods built from them
 	k1 := res.Tie("random-64bit", "K1",
 		"random timestamps over the full int64 seconds range (extremes, near-equal, random) and periods built from a shared pool so that equal/adjacent bounds are frequent; non-trivial = operands differ")
-	r := lib.NewRand(f.Seed)
-	n := f.N(20000, 400000)
-	cases = cases[:0]
-	for i := 0; i < n; i++ {
-		pool := []string{randTs(r), randTs(r), randTs(r)}
-		switch r.Intn(4) {
-		case 3:
-			a, b := pool[r.Intn(3)], pool[r.Intn(3)]
-			if r.Intn(6) == 0 {
-				a = "-"
+	return func(drv *lib.Driver) {
+
+		// K2: the whole finite domain named by the property
+		dom := periodDomain()
+		var cases []tcase
+		for _, op := range []string{"isect", "conn"} {
+			for _, a := range dom {
+				for _, b := range dom {
+					cases = append(cases, tcase{op, a, b})
+				}
 			}
-			switch r.Intn(3) {
-			case 0:
-				cases = append(cases, tcase{"pbefore", a, "-"})
-			case 1:
-				cases = append(cases, tcase{"pafter", a, "-"})
-			default:
+		}
+		compare(k2, mon, drv, cases)
+
+		// K2b: all timestamp pairs of the small domain for cmp
+		var small []string
+		for s := -2; s <= 5; s++ {
+			for _, n := range []int{0, 1, 999999999} {
+				small = append(small, fmt.Sprintf("%d:%d", s, n))
+			}
+		}
+		cases = cases[:0]
+		for _, a := range small {
+			for _, b := range small {
+				cases = append(cases, tcase{"cmp", a, b})
+			}
+		}
+		compare(k2b, mon, drv, cases)
+
+		// K2c: the period constructors over the endpoint domain
+		cases = cases[:0]
+		cases = append(cases, tcase{"pall", "-", "-"})
+		for _, a := range endpointDomain() {
+			cases = append(cases, tcase{"pbefore", a, "-"}, tcase{"pafter", a, "-"})
+			for _, b := range endpointDomain() {
 				cases = append(cases, tcase{"pbetween", a, b})
 			}
-		case 0:
-			a := pool[r.Intn(3)]
-			b := pool[r.Intn(3)]
-			if r.Intn(2) == 0 {
-				b = randTs(r)
-			}
-			cases = append(cases, tcase{"cmp", a, b})
-		case 1:
-			cases = append(cases, tcase{"isect", randPeriod(r, pool), randPeriod(r, pool)})
-		default:
-			cases = append(cases, tcase{"conn", randPeriod(r, pool), randPeriod(r, pool)})
 		}
+		compare(k2c, mon, drv, cases)
+
+		// K1: random 64-bit range timestamps and periods built from them
+		r := lib.NewRand(f.Seed)
+		n := f.N(20000, 400000)
+		cases = cases[:0]
+		for i := 0; i < n; i++ {
+			pool := []string{randTs(r), randTs(r), randTs(r)}
+			switch r.Intn(4) {
+			case 3:
+				a, b := pool[r.Intn(3)], pool[r.Intn(3)]
+				if r.Intn(6) == 0 {
+					a = "-"
+				}
+				switch r.Intn(3) {
+				case 0:
+					cases = append(cases, tcase{"pbefore", a, "-"})
+				case 1:
+					cases = append(cases, tcase{"pafter", a, "-"})
+				default:
+					cases = append(cases, tcase{"pbetween", a, b})
+				}
+			case 0:
+				a := pool[r.Intn(3)]
+				b := pool[r.Intn(3)]
+				if r.Intn(2) == 0 {
+					b = randTs(r)
+				}
+				cases = append(cases, tcase{"cmp", a, b})
+			case 1:
+				cases = append(cases, tcase{"isect", randPeriod(r, pool), randPeriod(r, pool)})
+			default:
+				cases = append(cases, tcase{"conn", randPeriod(r, pool), randPeriod(r, pool)})
+			}
+		}
+		compare(k1, mon, drv, cases)
 	}
-	compare(k1, mon, drv, cases)
 }
 
 func compare(t *lib.Tie, mon *lib.Monitor, drv *lib.Driver, cases []tcase) {
